@@ -512,6 +512,11 @@ def _rand_domain(rng):
                 lo = rng.choice([0, 1, -5, 10, 100, -100])
                 hi = lo + rng.choice([0, 0, 1, 3, 100])
                 ranges.append([lo, hi])
+            elif j < 0.62:
+                # bounds whose repr() is in exponent notation (1e-05, 2.5e-07, 1e+16)
+                lo = rng.choice([1e-05, 2.5e-07, 3e-05, 1e+16, 1.5e+20])
+                hi = lo * rng.choice([1.0, 2.0, 10.0])
+                ranges.append([lo, hi])
             else:
                 lo = rng.choice([0.0, 0.5, 1.25, -2.5, 10.125])
                 hi = lo + rng.choice([0.0, 0.5, 1.0, 2.75, 100.001])
